@@ -484,7 +484,7 @@ func (w *cnWorld) terminate() {
 		if t.Chance(1, 3) {
 			// a read error that calls itself temporary: a connection whose read failed has
 			// ended all the same (the reader does not go on after an error)
-			w.sc.EndRead(&simNetErr{"sim: read: interrupted", true}, true)
+			w.sc.EndRead(&simNetErr{msg: "sim: read: interrupted", temp: true}, true)
 			e.Fault("temporary-read-error")
 			e.Probe("temporary-read-error")
 		} else {
